@@ -679,6 +679,22 @@ pub fn run_deep_case<I: MonItem>(case_seed: u64, rep: &mut Report, verbose: bool
             w.pool.push(live);
             w.rep.see_str("deep_shapes", shape);
         }
+        // a third treap of the same size class built by the library itself (balanced): large subtrees at every level
+        {
+            let d = rng.range_usize(2000, 3200);
+            let mut t: Treap<I> = lib!(Treap::new());
+            let mut model: Vec<(u32, I::Elem)> = Vec::with_capacity(d);
+            for k in 0..d {
+                let e = I::gen_elem(&mut rng);
+                let id = w.next_id;
+                w.next_id += 1;
+                let pos = if k % 3 == 0 { rng.range_usize(0, k) } else { k };
+                lib!(t.insert_at(pos, I::make(id, &e)));
+                model.insert(pos, (id, e));
+            }
+            w.log.push(format!("balanced treap of {} nodes built with insert_at (library priorities)", d));
+            w.pool.push(Live { treap: t, model });
+        }
         w.check_all("construction of the path-shaped treaps");
         let nops = rng.range_usize(6, 14);
         for _ in 0..nops {
@@ -689,7 +705,7 @@ pub fn run_deep_case<I: MonItem>(case_seed: u64, rep: &mut Report, verbose: bool
             }
             let i = rng.usize_below(np);
             let len = w.pool[i].model.len();
-            match rng.below(10) {
+            match rng.below(12) {
                 0 | 1 => {
                     if np >= 2 {
                         let mut j = rng.usize_below(np - 1);
@@ -716,6 +732,24 @@ pub fn run_deep_case<I: MonItem>(case_seed: u64, rep: &mut Report, verbose: bool
                 8 => {
                     if len > 0 {
                         w.op_remove_at(i, rng.usize_below(len));
+                    }
+                }
+                9 => {
+                    // a modification attached at the root (left pending there), then a cut exactly at the boundary between
+                    // the root's left subtree and the root: the whole left subtree changes hands in one piece
+                    w.op_attach(i, I::gen_mod(&mut rng));
+                    if rng.chance(1, 2) {
+                        w.op_attach(i, I::gen_mod(&mut rng));
+                    }
+                    let ls = w.pool[i].treap.root.as_ref().map(|r| r.left.as_ref().map(|l| l.item.size()).unwrap_or(0));
+                    if let Some(ls) = ls {
+                        let pos = match rng.below(3) {
+                            0 => ls,
+                            1 => (ls + 1).min(len),
+                            _ => rng.range_usize(0, len),
+                        };
+                        w.rep.inc("cuts_at_the_root_boundary_with_a_pending_modification");
+                        w.op_split_at(i, pos);
                     }
                 }
                 _ => {
